@@ -6,8 +6,13 @@ import (
 	stdjson "encoding/json"
 	"fmt"
 	"math/rand"
+	"os"
+	"runtime/debug"
 	"sort"
+	"strconv"
 	"strings"
+
+	"github.com/gabriel-vasile/mimetype"
 
 	"verifharness/internal/fw"
 	"verifharness/internal/gen"
@@ -241,6 +246,23 @@ func c17Structured(r *rand.Rand) ([]byte, string, []int) {
 	}
 }
 
+func memAvailableGiB() int {
+	b, err := os.ReadFile("/proc/meminfo")
+	if err != nil {
+		return 0
+	}
+	for _, l := range strings.Split(string(b), "\n") {
+		if strings.HasPrefix(l, "MemAvailable:") {
+			f := strings.Fields(l)
+			if len(f) >= 2 {
+				kb, _ := strconv.Atoi(f[1])
+				return kb >> 20
+			}
+		}
+	}
+	return 0
+}
+
 func c17Run(c *fw.Ctx, b fw.Batch) {
 	r := c.Rand
 	seeds := lib.Seeds()
@@ -294,6 +316,69 @@ func c17Run(c *fw.Ctx, b fw.Batch) {
 				c17JudgeInput(c, "seed-mutant", m, 1536, nil)
 			}
 		}
+	case "dictionary":
+		// tokens taken from the signature tables of the tree under test are placed
+		// behind the first bytes of every short binary seed (and at fixed small offsets
+		// on their own): a signature that another check inspects behind a format's magic
+		// must hand the file over to a binary format, never drop it
+		dict := lib.SourceDictionary()
+		c.Max("source_dictionary_tokens", int64(len(dict)))
+		var heads [][]byte
+		for _, s := range seeds {
+			if len(s) >= 2 && len(s) <= 64 && c17Class(lib.ChainOf(lib.Detect(s, 0))) == 'b' {
+				heads = append(heads, s)
+			}
+		}
+		lo, hi := split(len(heads), b.Idx, b.Of)
+		for _, hd := range heads[lo:hi] {
+			for _, k := range []int{2, 4, 8, len(hd)} {
+				if k > len(hd) {
+					continue
+				}
+				for ti, tok := range dict {
+					_ = ti
+					x := append(append(append([]byte{}, hd[:k]...), tok...), "\x00\x00rest of the file"...)
+					c17JudgeInput(c, "magic+dictionary-token", x, b.N, []int{k, k + len(tok)})
+				}
+			}
+		}
+	case "huge-limit":
+		// DetectReader / DetectFile with limits next to 2^32 (one call at a time: the
+		// reader path allocates `limit` bytes by design)
+		if memAvailableGiB() < 24 {
+			c.Count("huge_limit_cases_skipped_low_memory", 1)
+			c.Distinct("huge-limit-skipped")
+			c.Distinct("huge-limit-skipped-2")
+			c.Eval(1)
+			return
+		}
+		for _, s := range [][]byte{seeds[0], []byte("\x89PNG\x0d\x0a\x1a\x0a\x00\x00\x00\x0dIHDR"), []byte("%PDF-1.7\n")} {
+			small := lib.ChainOf(lib.Detect(s, 3072))
+			if c17Class(small) != 'b' {
+				continue
+			}
+			for _, lim := range []uint32{1 << 31, 1<<32 - 4096, 1<<32 - 1} {
+				var ch lib.Chain
+				key := fw.InputKey(s, lim, "DetectReader/huge-limit")
+				pl := c17Payload{Kind: "huge-limit", In: s, L1: 3072, L2: lim}
+				c.Trace(func() (string, any) { return key, pl })
+				if !c.Guard(key, func() any { return pl }, func() {
+					mimetype.SetLimit(lim)
+					m, _ := mimetype.DetectReader(bytes.NewReader(s))
+					ch = lib.ChainOf(m)
+				}) {
+					continue
+				}
+				mimetype.SetLimit(3072)
+				debug.FreeOSMemory()
+				c.Eval(1)
+				c.Count("reader_detections_with_limit_near_2^32", 1)
+				if c17Class(ch) != 'b' {
+					c.Violate("binary-identification-lost", key, fmt.Sprintf("identified as %s with limit 3072, but as %s through DetectReader with limit %d", small, ch, lim), pl)
+				}
+				c.Distinct(fmt.Sprintf("huge|%d", lim))
+			}
+		}
 	case "structured":
 		for i := 0; i < b.N; i++ {
 			x, kind, extra := c17Structured(r)
@@ -309,7 +394,7 @@ func init() {
 	fw.Register(&fw.Prop{
 		ID:    "C17",
 		Level: "exploration",
-		Rule: "inputs = every seed (first 6000 bytes), seeds with random / text / zero / other-seed tails appended (incl. one 9000-byte tail per seed swept sparsely past 4096 and 8192), seed mutants, and structured inputs whose deciding bytes sit at offsets given by length fields or at late fixed offsets (ID3v2 tags of 0-6000 bytes followed by MPEG / AAC / FLAC / junk, CRX with key+signature lengths to 6000 followed by zip or junk, multi-member tar archives from archive/tar with hostile member names, OLE with late CLSIDs, Matroska with a late DocType, hand-built zips, the TrueType -> Access hand-over, late sub-type markers, DICOM / MOBI / GIMP offsets). For each input the class is computed at EVERY limit up to a dense bound (1536 / 700), sparsely beyond, around 512 / 1024 / 1152 / 3072 / 4096 and around the structure's own offsets, and at 0 as the largest; once binary, every larger limit must be binary. " +
+		Rule: "inputs = every seed (first 6000 bytes), seeds with random / text / zero / other-seed tails appended (incl. one 9000-byte tail per seed swept sparsely past 4096 and 8192), seed mutants, and structured inputs whose deciding bytes sit at offsets given by length fields or at late fixed offsets (ID3v2 tags of 0-6000 bytes followed by MPEG / AAC / FLAC / junk, CRX with key+signature lengths to 6000 followed by zip or junk, multi-member tar archives from archive/tar with hostile member names, OLE with late CLSIDs, Matroska with a late DocType, hand-built zips, the TrueType -> Access hand-over, late sub-type markers, DICOM / MOBI / GIMP offsets); every short binary seed's first 2 / 4 / 8 / all bytes followed by tokens from a dictionary of all string and byte-slice literals of the signature packages, read from the tree under test at run time; DetectReader with limits next to 2^32 (skipped when less than 24 GiB of memory is available). For each input the class is computed at EVERY limit up to a dense bound (1536 / 700), sparsely beyond, around 512 / 1024 / 1152 / 3072 / 4096 and around the structure's own offsets, and at 0 as the largest; once binary, every larger limit must be binary. " +
 			"non-trivial = the reported leaf changes at least twice along the limit sweep; distinct = distinct (first binary leaf, limit at which it first appeared, class sequence) tuples.",
 		Assumptions: []string{
 			"text = text/plain somewhere in the hierarchy; unknown = the parentless application/octet-stream root",
@@ -323,6 +408,12 @@ func init() {
 			var bs []fw.Batch
 			bs = append(bs, batches("seeds", 20, nm, 3000)...)
 			bs = append(bs, batches("structured", 12, ns, 3000)...)
+			nd := 1 // dense bound of the limit sweep per (head, token) input: limits around the token only
+			if tier == "thorough" {
+				nd = 64
+			}
+			bs = append(bs, batches("dictionary", 8, nd, 3000)...)
+			bs = append(bs, batches("huge-limit", 1, 0, 3000)...)
 			return bs
 		},
 		Run: c17Run,
@@ -330,6 +421,10 @@ func init() {
 			var p c17Payload
 			if err := stdjson.Unmarshal(payload, &p); err != nil {
 				fmt.Println("bad payload:", err)
+				return
+			}
+			if p.Kind == "huge-limit" {
+				c17Run(c, fw.Batch{Kind: "huge-limit"})
 				return
 			}
 			a := c17Class(lib.ChainOf(lib.Detect(p.In, p.L1)))
